@@ -55,6 +55,8 @@ def generate(rng, index, cfg):
         "faults": rng.random() < 0.3,
         "cli": rng.random() < 0.5,
         "big_notebooks": rng.random() < 0.3,
+        # a git clean filter on notebooks: nbdime applies it to working-tree files before comparing
+        "clean_filter": rng.choice([None, None, None, None, "cat", "sed -e s/print/PRINT/g"]),
     }
     dirs = swarm["dirs"]
     ops = []
@@ -301,15 +303,21 @@ def _expected(world, q, cwd_abs):
     return out, None
 
 
-def _side_content(world, ref, path):
+def _side_content(world, ref, path, clean_filter=None):
     if path is None:
         return None
     if ref == "WORKING":
         try:
             with open(os.path.join(world.work, path), "rb") as f:
-                return f.read().decode("utf8", "replace")
+                data = f.read()
         except OSError:
             return None
+        if clean_filter:
+            # what git itself would compare: the working file passed through the clean filter
+            from simkit.world import real_run
+            p = real_run(["/bin/sh", "-c", clean_filter], cwd=world.work, env=world.env, input=data)
+            data = p.stdout
+        return data.decode("utf8", "replace")
     spec = (":" + path) if ref == "INDEX" else ("%s:%s" % (ref, path))
     p = world.git("show", spec, check=False)
     if p.returncode != 0:
@@ -324,7 +332,7 @@ def _is_nb(p):
 class Runner:
     def __init__(self, trace, scratch):
         self.trace = trace
-        self.world = World(scratch, helpers=("git", "diff"))
+        self.world = World(scratch, helpers=("git", "diff", "cat", "sed", "sh"))
         self.log = EventLog(keep=False)
         self.log.add_subst(self.world.root, "$S")
         self.violations = []
@@ -600,7 +608,7 @@ class Runner:
             if bn in vanished or an in vanished:
                 continue
             for side, name, text, ref in (("a", an, at, q["ref_a"]), ("b", bn, bt, q["ref_b"])):
-                want = _side_content(w, ref, name)
+                want = _side_content(w, ref, name, self.clean_filter)
                 if _parse(text) != _parse(want):
                     self.violate("G2", dict(sig_base, side=side),
                                  "side %s of pair (%r, %r): nbdime's content differs from what git holds at %s" % (side, an, bn, ref))
@@ -614,6 +622,12 @@ class Runner:
         w.git("config", "user.name", "Sim")
         w.git("config", "user.email", "sim@example.invalid")
         self.log.ev("start", swarm=self.trace.get("swarm"))
+        self.clean_filter = (self.trace.get("swarm") or {}).get("clean_filter")
+        if self.clean_filter:
+            w.git("config", "filter.nbclean.clean", self.clean_filter)
+            with open(os.path.join(w.work, ".git", "info", "attributes"), "w") as f:
+                f.write("*.ipynb filter=nbclean\n")
+            self.stat("histories_with_clean_filter")
         for op in self.trace["ops"]:
             if op["op"] == "query":
                 self.do_query(op)
